@@ -193,7 +193,13 @@ pub fn check(case: &Case) -> Outcome {
     o.class_if(std::iter::once(&case.name).chain(case.paths.iter()).any(|p| p.comps.len() > 40), "climb-after-more-than-20-components");
     o.class_if(case.multi && files.iter().map(|f| f.1).sum::<usize>() % 4 == 0 && files.last().map(|f| f.1 == 0).unwrap_or(false), "empty-file-at-the-very-end-of-the-content");
     let geo = Geometry { piece_len: 4, files, multi: case.multi, name: name.clone(), content_seed: case.seed };
-    let t = Torrent::new(geo.clone());
+    let mut t = Torrent::new(geo.clone());
+    if case.multi && case.seed % 5 == 0 {
+        // both `files` and a `length` equal to their sum: a client may refuse the document or read it as multi-file,
+        // but must not lose the name directory
+        t.also_length = true;
+        o.class("files-and-length-both-present");
+    }
     let m = match catch(|| t.metainfo()) {
         Ok(Ok(m)) => m,
         Ok(Err(_)) => {
@@ -278,7 +284,7 @@ fn run(ctx: &WorkerCtx) -> WorkerReport {
 pub fn def() -> PropDef {
     PropDef {
         id: "C04",
-        rule: "name/path strings assembled from the component alphabet {.., ., empty, a, sub, ..x, x.., space, ..., and backslash-separated climbs such as ..\\bs} joined by / or //, plus deep climbs (20-257 harmless components followed by as many `..` or up to three more), optionally absolute (absolute ones point into a per-worker canary directory), for single-file and multi-file torrents (0-3 file entries: a multi-file torrent without entries still has a name) with a small valid payload; the real Extractor runs in <private root>/c/l1/l2. Oracle: recursive listing (names, sizes) of the private root outside the cwd is unchanged whether extraction reports Done or Fail; for multi-file torrents with a plain name every created entry is inside ./<name>/. Refusing and neutralising are both accepted. Non-trivial = some name/path has a `..` or is absolute; distinct by hash of the case.",
+        rule: "name/path strings assembled from the component alphabet {.., ., empty, a, sub, ..x, x.., space, ..., and backslash-separated climbs such as ..\\bs} joined by / or //, plus deep climbs (20-257 harmless components followed by as many `..` or up to three more), optionally absolute (absolute ones point into a per-worker canary directory), for single-file and multi-file torrents (a fifth of the multi-file ones also carry a `length` equal to the sum of their files) (0-3 file entries: a multi-file torrent without entries still has a name) with a small valid payload; the real Extractor runs in <private root>/c/l1/l2. Oracle: recursive listing (names, sizes) of the private root outside the cwd is unchanged whether extraction reports Done or Fail; for multi-file torrents with a plain name every created entry is inside ./<name>/. Refusing and neutralising are both accepted. Non-trivial = some name/path has a `..` or is absolute; distinct by hash of the case.",
         assumptions: &[
             "the number of `..` components per resulting path is capped at the depth of the cwd below the worker's private root (3), so that every escape lands where the oracle looks",
             "symlinks already present in the download directory are out of scope (the property speaks about names and paths in the metainfo)",
@@ -288,7 +294,7 @@ pub fn def() -> PropDef {
             cases: |t| t.pick(20_000, 300_000),
             run,
             replay: |v| replay_case::<Case>(v, check),
-            min_class: &[("hostile-path", 0.2981), ("hostile-name", 0.1), ("absolute", 0.1), ("dotdot-after-normal-component", 0.1), ("backslash-component", 0.15), ("multi-file-without-entries", 0.025), ("climb-after-more-than-20-components", 0.08)],
+            min_class: &[("hostile-path", 0.2981), ("hostile-name", 0.1), ("absolute", 0.1), ("dotdot-after-normal-component", 0.1), ("backslash-component", 0.15), ("multi-file-without-entries", 0.025), ("climb-after-more-than-20-components", 0.08), ("files-and-length-both-present", 0.05)],
         }],
     }
 }
